@@ -79,8 +79,10 @@ NAMES = [None, "my graph", "graph with newline\n", "c 3", "café", "",
 
 
 def _gen_graph(rng, gtype):
-    size = rng.choice([0, 1, 2, 3, 5, 7, 9, 10, 10, 11, 11, 12, 14])
+    size = rng.choice([0, 1, 2, 3, 5, 7, 9, 10, 10, 11, 11, 12, 14, 21, 34])
     p = rng.choice([0.0, 0.15, 0.4, 0.8, 1.0])
+    if size > 14:
+        p = min(p, 0.15)
     if gtype == "bipartite":
         L = rng.choice([0, 1, 2, 3, 5, 9, 10, 11])
         R = rng.choice([0, 1, 2, 3, 5, 9, 10, 11])
